@@ -151,4 +151,50 @@ instance (cfg : CheckCfg) (n : Node) : Decidable (WellTyped cfg n) := by
   | none => exact isFalse (by rintro ⟨τ, hτ⟩; cases hτ)
   | some τ => exact isTrue ⟨τ, rfl⟩
 
+/-! ### "all its operands are statically typed" -/
+
+/-- every sub-expression has a static (non-interface, non-nil) type -/
+def staticTy (t : Option OTy) : Bool :=
+  match t with
+  | some (some ty) => ty.kind != .iface
+  | _ => false
+
+mutual
+def staticNode (cfg : CheckCfg) : List OTy → Node → Bool
+  | cs, .unary m op x => staticTy (synth cfg cs (.unary m op x)) && staticNode cfg cs x
+  | cs, .binary m op l r => staticTy (synth cfg cs (.binary m op l r)) && staticNode cfg cs l && staticNode cfg cs r
+  | cs, .matches m h l r => staticTy (synth cfg cs (.matches m h l r)) && staticNode cfg cs l && staticNode cfg cs r
+  | cs, .prop m x n s => staticTy (synth cfg cs (.prop m x n s)) && staticNode cfg cs x
+  | cs, .index m x i => staticTy (synth cfg cs (.index m x i)) && staticNode cfg cs x && staticNode cfg cs i
+  | cs, .slice m x f t =>
+    staticTy (synth cfg cs (.slice m x f t)) && staticNode cfg cs x && staticOpt cfg cs f && staticOpt cfg cs t
+  | cs, .method m x n args s =>
+    staticTy (synth cfg cs (.method m x n args s)) && staticNode cfg cs x && staticList cfg cs args
+  | cs, .func m n args f => staticTy (synth cfg cs (.func m n args f)) && staticList cfg cs args
+  | cs, .builtin m n [a] => staticTy (synth cfg cs (.builtin m n [a])) && staticNode cfg cs a
+  | cs, .builtin m n [a, c] =>
+    staticTy (synth cfg cs (.builtin m n [a, c])) && staticNode cfg cs a &&
+      (match synth cfg cs a with | some coll => staticNode cfg (coll :: cs) c | none => false)
+  | _, .builtin _ _ _ => false
+  | cs, .closure _ x => staticNode cfg cs x
+  | cs, .cond m c a b =>
+    staticTy (synth cfg cs (.cond m c a b)) && staticNode cfg cs c && staticNode cfg cs a && staticNode cfg cs b
+  | cs, .array _ xs => staticList cfg cs xs
+  | cs, .map _ ps => staticList cfg cs ps
+  | cs, .pair _ k v => staticNode cfg cs k && staticNode cfg cs v
+  | cs, n => staticTy (synth cfg cs n)
+def staticOpt (cfg : CheckCfg) : List OTy → Option Node → Bool
+  | _, none => true
+  | cs, some n => staticNode cfg cs n
+def staticList (cfg : CheckCfg) : List OTy → List Node → Bool
+  | _, [] => true
+  | cs, n :: ns => staticNode cfg cs n && staticList cfg cs ns
+end
+
+/-- the hypothesis "all its operands are statically typed" -/
+def Static (cfg : CheckCfg) (n : Node) : Prop := staticNode cfg [] n = true
+
+instance (cfg : CheckCfg) (n : Node) : Decidable (Static cfg n) := by unfold Static; exact inferInstance
+
+
 end ExprModel
